@@ -25,10 +25,18 @@ import tempfile
 V = os.path.dirname(os.path.dirname(os.path.abspath(__file__)))
 REPO = "/repo"
 REVERTS = {   # fix commit subject prefix -> checks that must report once it is reverted
-    "fix: cogeneration": ["C09"],
-    "fix: auxiliary energy reassignment": ["C06", "C10"],
-    "fix: deterministic order": ["C10"],
+    "fix: cogenerated-electricity": ["C09", "C02"],
+    "fix: only replace the auxiliary": ["C06", "C10"],
+    "fix: create reassigned auxiliary": ["C10"],
     "fix: low-SCOP": ["C15"],
+    "fix: keep the grid electricity": ["C08"],
+    "fix: save CTE_KEXP": ["C19"],
+    "fix: close the <Demanda>": ["C17"],
+    "fix: write the building demand": ["C18"],
+    "fix: reject DEMANDA lines": ["C16"],
+    "fix: Energy::is_electricity": ["C16", "C08"],
+    "fix: only override _Unwind_Resume": ["C16"],
+    "fix: balance electricity when auxiliary": ["C06"],
 }
 
 
@@ -106,22 +114,28 @@ def main():
         i = args.index("--out")
         out_path = args[i + 1]
         del args[i:i + 2]
+    no_hand = "--no-hand" in args
     do_seeded = "--seeded" in args
     do_reverts = "--reverts" in args
     want = [a.lower() for a in args if not a.startswith("-")]
     jobs = []
-    for f in sorted(glob.glob(os.path.join(V, "tools", "mutants", "muts_c*.txt"))):
+    for f in ([] if no_hand else sorted(glob.glob(os.path.join(V, "tools", "mutants", "muts_c*.txt")))):
         prop = re.search(r"muts_(c\d\d)", f).group(1)
         if want and prop not in want:
             continue
         for i, (path, old, new) in enumerate(entries(f)):
             jobs.append(["hand/%s#%d" % (prop.upper(), i), [prop.upper()], "edit", (path, old, new)])
-    for f in sorted(glob.glob(os.path.join(V, "tools", "mutants", "benign_c*.txt"))):
+    for f in ([] if no_hand else sorted(glob.glob(os.path.join(V, "tools", "mutants", "benign_c*.txt")))):
         prop = re.search(r"benign_(c\d\d)", f).group(1)
         if want and prop not in want:
             continue
         for i, (path, old, new) in enumerate(entries(f)):
             jobs.append(["benign/%s#%d" % (prop.upper(), i), [prop.upper()], "edit", (path, old, new)])
+    for f in ([] if no_hand else sorted(glob.glob(os.path.join(V, "tools", "mutants", "benign_c*.diff")))):
+        prop = re.search(r"benign_(c\d\d)", f).group(1)
+        if want and prop not in want:
+            continue
+        jobs.append(["benign/%s/%s" % (prop.upper(), os.path.basename(f)[len("benign_c00_"):-5]), [prop.upper()], "patch", f])
     if do_seeded:
         for dname in sorted(glob.glob(os.path.join(V, "seeded", "C*"))):
             name = os.path.basename(dname)
@@ -134,7 +148,7 @@ def main():
         for line in log:
             h, subj = line.split(" ", 1)
             for pre, props in REVERTS.items():
-                if subj.startswith(pre):
+                if subj.startswith(pre) and (not want or any(p.lower() in want for p in props)):
                     jobs.append(["revert/%s" % h, props, "revert", h])
     for i, j in enumerate(jobs):
         j.append(i % nj)
